@@ -90,19 +90,44 @@ func (c *Client) SubscriptionIDs() []uint32 {
 	return ids
 }
 
-// recreateSubscriptions creates new subscriptions
-// with the same parameters to replace the previous one
-func (c *Client) recreateSubscription(ctx context.Context, id uint32) error {
+// recreateSubscriptions creates new subscriptions with the same parameters
+// to replace the given ones. It returns the number of subscriptions which
+// have been recreated.
+//
+// All subscriptions are deleted and forgotten before the first one is
+// created again since the server may hand out the id of an old subscription
+// for a new one, e.g. after a restart.
+func (c *Client) recreateSubscriptions(ctx context.Context, ids []uint32) int {
 	c.subMux.Lock()
 	defer c.subMux.Unlock()
 
-	sub, ok := c.subs[id]
-	if !ok {
-		return ua.StatusBadSubscriptionIDInvalid
+	var subs []*Subscription
+	for _, id := range ids {
+		sub, ok := c.subs[id]
+		if !ok {
+			debug.Printf("recreate subscription %d failed: %v", id, ua.StatusBadSubscriptionIDInvalid)
+			continue
+		}
+		sub.recreate_delete(ctx)
+		c.forgetSubscription_NeedsSubMuxLock(ctx, id)
+		subs = append(subs, sub)
 	}
 
-	sub.recreate_delete(ctx)
-	c.forgetSubscription_NeedsSubMuxLock(ctx, id)
+	n := 0
+	for _, sub := range subs {
+		if err := c.recreateSubscription_NeedsSubMuxLock(ctx, sub); err != nil {
+			debug.Printf("recreate subscription failed: %v", err)
+			continue
+		}
+		n++
+	}
+	return n
+}
+
+// recreateSubscription_NeedsSubMuxLock creates a new subscription
+// with the same parameters for a subscription which has been
+// deleted and forgotten.
+func (c *Client) recreateSubscription_NeedsSubMuxLock(ctx context.Context, sub *Subscription) error {
 	if err := sub.recreate_create(ctx); err != nil {
 		return err
 	}
